@@ -8,13 +8,15 @@ CONSTANTS n1 = n1
  Byz = {n5}
  NV = 1
  Cands = {"A", "B"}
+ DecCands = {"A"}
  ThrMinus = 0
  ExVerify = TRUE
  AggVerify = TRUE
- Agreement = FALSE
- MaxBad = 1
- MaxCrash = 1
- ByzClaims = "any"
+ Agreement = TRUE
+ MaxBad = 0
+ MaxCrash = 0
+ ByzClaims = "own"
+ HonestBatches = "any"
 INVARIANTS Safety
 PROPERTIES StoredStable RejectKeeps
 VIEW View
